@@ -19,6 +19,7 @@ mod c11;
 mod c12;
 mod c13;
 mod c14;
+mod c15;
 mod c16;
 mod c17;
 mod c18;
@@ -49,6 +50,7 @@ fn run_line(prop: &str, line: &str) -> String {
     "C12" => c12::run(args),
     "C13" => c13::run(args),
     "C14" => c14::run(args),
+    "C15" => c15::run(args),
     "C16" => c16::run(args),
     "C17" => c17::run(args),
     "C18" => c18::run(args),
@@ -89,6 +91,7 @@ fn main() {
         "C12" => c12::gen(thorough, seed, &mut out),
         "C13" => c13::gen(thorough, seed, &mut out),
         "C14" => c14::gen(thorough, seed, &mut out),
+        "C15" => c15::gen(thorough, seed, &mut out),
         "C16" => c16::gen(thorough, seed, &mut out),
         "C17" => c17::gen(thorough, seed, &mut out),
         "C18" => c18::gen(thorough, seed, &mut out),
